@@ -6,7 +6,7 @@
  *
  * stdin: one program per line (prefix notation, see ocaml/Exn_driver.ml).
  * stdout: one transcript line per program
- *    t<n>@<d>  h<k>,<m>@<d>  X<d0>-><d1> (depth after a try/catch differs from the depth before)
+ *    t<n>@<d>  h<o>,<m>@<d> (o = identity of the bound object, see exn_objs.h)  X<d0>-><d1> (depth after a try/catch differs from the depth before)
  *    final N@<d> ; a program that dies prints the library's stderr text instead, and the parent
  *    appends " | EXIT(1)" (hcommon.h). */
 #include "Exception.c"
@@ -15,19 +15,12 @@
 enum { PSKIP, PTICK, PSEQ, PTHROW, PTRY, PCALL };
 typedef struct Node { int tag, n, m, mask; struct Node *a, *b; } Node;
 
-#define K0 TypeError
-#define K1 ValueError
-#define K2 KeyError
-#define K3 IOError
-static var kind_obj(int k) {
-  switch (k) { case 0: return K0; case 1: return K1; case 2: return K2; case 3: return K3; }
-  return ClassError;
-}
-static int kind_idx(var e) {
-  if (e is K0) return 0; if (e is K1) return 1; if (e is K2) return 2; if (e is K3) return 3;
-  if (e is NULL) return -1;
-  return 99;
-}
+#include "exn_objs.h"
+/* the 16 compiled filters name the variant-0 object of each kind (matching is by eq = by kind) */
+#define K0 X(0,0)
+#define K1 X(1,0)
+#define K2 X(2,0)
+#define K3 X(3,0)
 
 static char** toks; static int ntok, tpos;
 static Node* parse(void) {
@@ -38,8 +31,12 @@ static Node* parse(void) {
     case '.': n->tag = PSKIP; break;
     case 't': n->tag = PTICK; n->n = atoi(t+1); break;
     case ';': n->tag = PSEQ; n->a = parse(); n->b = parse(); break;
-    case '!': n->tag = PTHROW; n->n = atoi(t+1); n->m = strchr(t, ',') ? atoi(strchr(t, ',')+1) : 0; break;
-    case 'T': n->tag = PTRY; for (char* c = t+1; *c; c++) n->mask |= 1 << (*c - '0');
+    case '!': n->tag = PTHROW; n->n = atoi(t+1); n->m = strchr(t, ',') ? atoi(strchr(t, ',')+1) : 0;
+              if (n->n / 10 >= NKIND || n->n % 10 >= NVAR) { P("BADCASE"); fflush(OUT); _exit(0); }
+              break;
+    case 'T': n->tag = PTRY;
+              for (char* c = t+1; *c; ) { int o = atoi(c); n->mask |= 1 << ((o / 10) & 3);
+                                          while (*c && *c != '.') c++; if (*c == '.') c++; }
               n->a = parse(); n->b = parse(); break;
     case 'C': n->tag = PCALL; n->a = parse(); break;
     default: P("BADCASE"); fflush(OUT); _exit(0);
@@ -52,7 +49,7 @@ static void run(Node* n);
 static void on_handler(var e) {
   struct Exception* x = current(Exception);
   const char* s = c_str(x->msg);
-  P("h%d,%s@%zu ", kind_idx(e), (s[0] == 'm') ? s+1 : s, len(current(Exception)));
+  P("h%d,", obj_id(e)); print_msg(s); P("@%zu ", len(current(Exception)));
   fflush(OUT);
 }
 
@@ -94,7 +91,7 @@ static void run(Node* n) {
     case PSKIP: break;
     case PTICK: P("t%d@%zu ", n->n, len(current(Exception))); fflush(OUT); break;
     case PSEQ: run(n->a); run(n->b); break;
-    case PTHROW: throw(kind_obj(n->n), "m%i", $I(n->m)); break;
+    case PTHROW: THROW(n->n, n->m); break;
     case PTRY: run_try(n); break;
     case PCALL: run_call(n); break;
   }
@@ -104,7 +101,9 @@ static void do_case(char* line) {
   size_t cap = strlen(line) / 2 + 2;
   toks = malloc(cap * sizeof(char*)); ntok = 0; tpos = 0;
   char* s = line; char* t;
-  while ((t = next_tok(&s, ' ')) != NULL) if (*t) toks[ntok++] = t;
+  char rep = 'T';
+  while ((t = next_tok(&s, ' ')) != NULL) { if (*t == '@') rep = t[1]; else if (*t) toks[ntok++] = t; }
+  setup_objs(rep);
   Node* root = parse();
   if (tpos != ntok) { P("BADCASE"); return; }
   fflush(OUT);
